@@ -404,6 +404,103 @@ inline rc::Gen<EncCase> withPriorCalls(rc::Gen<EncCase> base, const EncGenParams
     });
 }
 
+// ---------------------------------------------------------------------------------------------------
+// Coverage-guided mode: maps an arbitrary field image of an encoder case into the domain the rapidcheck generator above draws from
+// (same per-property switches), with bounded work.  Every clamp mirrors a rule of genEncCase / genGenericTypes / withPriorCalls.
+// ---------------------------------------------------------------------------------------------------
+struct EncNormParams
+{
+    bool allowEmptyBatch{false};
+    bool allowErrorFlag{false};
+    bool allowEmptyPayload{false};  // generic packets with a zero-length payload (C08 - C10)
+    bool allowMsgType0{false};      // generic packets of message type 0 (C09 / C10)
+    uint32_t maxMaxB{300000};
+    size_t maxBatch{16};
+    size_t frameBudget{12000};
+};
+
+inline void normalizeRecipe(PacketRecipe& r, const EncNormParams& np)
+{
+    r.kind = static_cast<uint8_t>(r.kind % 8);
+    r.viaApi = r.viaApi ? 1 : 0;
+    r.inPlace = (r.inPlace && r.kind >= rkCan && r.kind <= rkEthernet) ? 1 : 0;
+    if (!np.allowErrorFlag)
+        r.flags = static_cast<uint8_t>(r.flags & ~0x40);
+    if (r.kind == rkGeneric)
+    {
+        if (r.msgType == 0 && !np.allowMsgType0)
+            r.msgType = 1;
+        if (r.ptype == 0)
+            r.ptype = 0x20;  // a message with payload type byte 0 reads as padding
+        if (r.msgType == 1 && (r.ptype == 1 || r.ptype == 2 || r.ptype == 3 || r.ptype == 7 || r.ptype == 8))
+            r.ptype = 0x20;  // typed data payloads are produced by their own kinds (well-formed by construction)
+        if (r.msgType == 3 && (r.ptype == 1 || r.ptype == 2))
+            r.ptype = 0x30;
+        r.emptyPayload = (r.emptyPayload && np.allowEmptyPayload) ? 1 : 0;
+        if (r.emptyPayload)
+            r.len = 0;
+        else if (r.len == 0)
+            r.len = 1;
+    }
+    else
+        r.emptyPayload = 0;
+    r.len = std::min<uint32_t>(r.len, PacketRecipe::maxLen(r.kind));
+}
+
+inline void normalizeCall(uint8_t& version, uint32_t& minB, uint32_t& maxB, std::vector<PacketRecipe>& packets, const EncNormParams& np, size_t maxBatch,
+                          size_t budget)
+{
+    if (version == 0)
+        version = 1;
+    maxB = std::max<uint32_t>(25, std::min<uint32_t>(maxB, np.maxMaxB));
+    minB = std::min(minB, maxB);
+    if (packets.size() > maxBatch)
+        packets.resize(maxBatch);
+    const size_t lfit = maxB - 24;
+    size_t frames = 0;
+    for (auto& r : packets)
+    {
+        normalizeRecipe(r, np);
+        size_t need = payloadLengthOf(r) / lfit + 1;
+        if (frames + need > budget)
+        {
+            r.len = (r.kind == rkGeneric && !r.emptyPayload) ? 1 : 0;
+            need = 1;
+        }
+        frames += need;
+    }
+}
+
+inline void normalizeEncCase(EncCase& c, const EncNormParams& np)
+{
+    normalizeCall(c.version, c.minB, c.maxB, c.packets, np, np.maxBatch, np.frameBudget);
+    if (c.packets.empty() && !np.allowEmptyBatch)
+    {
+        PacketRecipe r;
+        normalizeRecipe(r, np);
+        c.packets.push_back(r);
+    }
+    c.overload = static_cast<uint8_t>(c.overload % 4);
+    c.reuseObjects = c.reuseObjects ? 1 : 0;
+    c.decoderSawUnfinished = static_cast<uint8_t>(c.decoderSawUnfinished % 4);
+    if (c.abortAfter < -1)
+        c.abortAfter = -1;
+    if (c.prior.size() > 3)
+        c.prior.resize(3);
+    EncNormParams pp = np;
+    pp.allowEmptyBatch = true;
+    for (auto& call : c.prior)
+    {
+        normalizeCall(call.version, call.minB, call.maxB, call.packets, pp, 6, 3000);
+        if (call.abortAfter < -1 || call.packets.empty())
+            call.abortAfter = -1;
+    }
+    // a packet with a zero-length payload has no single-packet form in the generators either
+    for (const auto& r : c.packets)
+        if (r.emptyPayload && c.overload == 3)
+            c.overload = 0;
+}
+
 // classification shared by C01 / C07 / C08
 struct EncClasses
 {
